@@ -244,7 +244,7 @@ def dist_pp_3d(ctx):
 
 @case("C09", "dist.polytopes.lattice", [], kind="bounded",
       functions=["geometer.operators.dist", "geometer.shapes.SegmentTensor.contains", "geometer.shapes.PolygonTensor.contains", "geometer.point.SubspaceTensor.project"],
-      bound="point-segment (2D: 6 segments x 49 grid points; 3D: 4 segments x 27 points), point-polygon (2D: 3 polygons incl. a non-convex one x 81 grid points, interior points included; "
+      bound="point-segment (2D: 6 segments x 49 grid points; 3D: 4 segments x 27 points; 4 segments x 4 pairs of end-point representatives x 9 / 27 points), point-polygon (2D: 3 polygons incl. a non-convex one x 81 grid points, interior points included; "
             "3D: the same polygons under 5 rigid motions x 36 points above/beside/in the plane), point-cuboid (exterior points), both argument orders; closed-form Euclidean oracle")
 def dist_polytopes_lattice(ctx):
     import itertools
@@ -292,6 +292,14 @@ def dist_polytopes_lattice(ctx):
             want = seg_dist(a, b, q)
             got = [float(dist(S, g.Point(*q))), float(dist(g.Point(*q), S))]
             ctx.ensure("point-segment-3d", all(abs(x - want) < 1e-7 * (1 + want) for x in got), witness=dict(segment=(a, b), point=q, got=got, want=want))
+    # end points given by other homogeneous representatives (scaled, negative), 2D and 3D
+    for a, b in [((0, 0), (4, 0)), ((-2, 3), (3, -1)), ((0, 0, 0), (4, 0, 0)), ((1, 1, 1), (1, 5, -2))]:
+        for ka, kb in ((-2.0, 1.0), (1.0, 3.0), (-1.0, -0.5), (2.0, -4.0)):
+            S = Segment(g.Point(np.array(list(a) + [1.0]) * ka), g.Point(np.array(list(b) + [1.0]) * kb))
+            for q in itertools.product((-2.0, 1.0, 3.5), repeat=len(a)):
+                want = seg_dist(a, b, q)
+                got = [float(dist(S, g.Point(*q))), float(dist(g.Point(*q), S)), float(dist(S, g.Point(np.array(list(q) + [1.0]) * -3.0)))]
+                ctx.ensure("point-segment:any-representative-of-the-end-points", all(abs(x - want) < 1e-7 * (1 + want) for x in got), witness=dict(segment=(a, b), scales=(ka, kb), point=q, got=got, want=want))
     polys = [[(0, 0), (4, 0), (4, 4), (0, 4)], [(0, 0), (4, 1), (1, 4)], [(0, 0), (4, 0), (4, 4), (2, 1), (0, 4)]]
     pgrid = [x - 2.0 for x in range(9)]
     for vs in polys:
